@@ -21,6 +21,8 @@ instance (t : TS) : Decidable (WF t) := by unfold WF; infer_instance
 /-- Set semantics: the nanoseconds a timespan denotes. -/
 def Mem (x : Int) (t : TS) : Prop := t.b ≤ x ∧ x < t.e
 
+instance (x : Int) (t : TS) : Decidable (Mem x t) := by unfold Mem; infer_instance
+
 theorem consts : minNsec < maxNsec := by decide
 
 theorem wf_empty_iff (t : TS) : (t.b = maxNsec ∧ t.e = minNsec) ↔ t = empty := by
